@@ -143,12 +143,12 @@ def mk_type(t):
     raise InvalidCase(k)
 
 
-def mk_fn_hugr(i, o):
+def mk_fn_hugr(i, o, reqs=()):
     """A DFG-rooted HUGR with the given signature and Input/Output children."""
     import hugr.ops as ops
     from hugr.hugr import Hugr
 
-    h = Hugr(ops.DFG(mk_row(i), mk_row(o)))
+    h = Hugr(ops.DFG(mk_row(i), mk_row(o), list(reqs)))
     h.add_node(ops.Input(mk_row(i)), h.root, num_outs=len(i))
     h.add_node(ops.Output(mk_row(o)), h.root)
     return h
@@ -211,7 +211,7 @@ def mk_value(v):
     if k == "ext":
         return val.Extension(v["name"], mk_type(v["t"]), v["payload"], list(v["exts"]))
     if k == "function":
-        return val.Function(mk_fn_hugr(v["i"], v["o"]))
+        return val.Function(mk_fn_hugr(v["i"], v["o"], v.get("reqs", [])))
     raise InvalidCase(k)
 
 
